@@ -21,7 +21,8 @@ for d in seeded/${1:-*}/; do
   else
     ./check $prop --no-evidence >/dev/null 2>&1; rc=$?
     rm -f replays/$prop-*
-    if [ $rc -eq 1 ]; then echo "$id breaks $prop: caught (ok)"; else echo "$id breaks $prop: exit $rc (MISSED)"; fail=1; fi
+    want=$(python3 -c "import json; print(json.load(open('$d/meta.json')).get('expect_exit',1))")
+    if [ $rc -eq 1 ] || [ $rc -eq $want ]; then echo "$id breaks $prop: caught (ok, exit $rc)"; else echo "$id breaks $prop: exit $rc (MISSED)"; fail=1; fi
   fi
   git -C /repo checkout -q -- .
 done
